@@ -122,8 +122,11 @@ static bool rtosc_match_args(const char *pattern, const char *msg)
     const char *arg_str = rtosc_argument_string(msg);
     bool      arg_match = *pattern || *pattern == *arg_str;
 
-    while(*pattern && *pattern != ':')
-        arg_match &= (*pattern++==*arg_str++);
+    while(*pattern && *pattern != ':') {
+        arg_match &= (*pattern++==*arg_str);
+        if(*arg_str) //stay on the terminator of a shorter type string
+            arg_str++;
+    }
 
     if(*pattern==':') {
         if(arg_match && !*arg_str)
